@@ -262,8 +262,12 @@ def run_pipeline(case):
                         else:
                             counters["rolling_rows_checked"] += 1
                             tag = row_tag.get((fmv.region, a))
+                            if row - r0 >= F.ifm.height:
+                                continue  # beyond the rows the registers make the hardware consume (the IFM box may over-approximate)
                             if tag is not None and tag != (tens.equivalence_id, row):
-                                v("rolling-buffer-row-overwritten-before-read", "%s reads row %d of %s at %#x but the buffer slot holds row %s" % (ps.name, row, tens.name, a, tag[1]))
+                                over = ":consumer-ifm-box-exceeds-receptive-field" if (r1 - r0) > F.ifm.height else ""
+                                v("rolling-buffer-row-overwritten-before-read" + over, "%s reads row %d of %s at %#x but the buffer slot holds row %s (IFM box rows [%d,%d), rows consumed %d)" % (
+                                    ps.name, row, tens.name, a, tag[1], r0, r1, F.ifm.height))
                     if is_write:
                         counters["rolling_buffers"] += 1
             # ---- partition of each pass' write region
